@@ -26,3 +26,9 @@ pub proof fn axiom_vec_len<T>(v: &Vec<T>)
 // TRUSTED: String's Hash and Eq implementations are deterministic and agree (vstd's hash-table key model)
 #[verifier::external_body]
 pub proof fn axiom_string_key_model() ensures vstd::std_specs::hash::obeys_key_model::<String>() {}
+
+// TRUSTED: a slice is at most isize::MAX elements long
+#[verifier::external_body]
+pub proof fn axiom_slice_len<T>(v: &[T])
+    ensures v@.len() <= 0x7fff_ffff_ffff_ffff
+{ }
